@@ -14,8 +14,14 @@ for d in sorted(glob.glob(os.path.join(root, "seeded", "*", ""))):
     elif len(s) > 260:
         cut += "…"
     det = re.sub(r"\s*\(tools/try_seed.sh.*?\)", "", m.get("detected_by", "")).replace("|", "/")
-    rows.append(f"| {name} | {cut} | {det} |")
-table = "| seeded change | what it does | caught by |\n|---|---|---|\n" + "\n".join(rows) + "\n"
+    lr = m.get("last_run", {})
+    last = "-"
+    if lr:
+        v = lr.get("verdict", "")
+        mm = re.search(r"lane=(\S+(?: \(race build\))?) kind=(\S+)", lr.get("violation", ""))
+        last = ("detected" if v.startswith("DETECTED") else "NOT detected") + (f" ({mm.group(1)} / {mm.group(2)})" if mm else "")
+    rows.append(f"| {name} | {cut} | {det} | {last} |")
+table = "| seeded change | what it does | caught by | final pass against the final checks (lane / kind of the first violation) |\n|---|---|---|---|\n" + "\n".join(rows) + "\n"
 p = os.path.join(root, "DESIGN.md")
 s = open(p).read()
 s = re.sub(r"<!-- SEED-TABLE-BEGIN -->.*?<!-- SEED-TABLE-END -->", "<!-- SEED-TABLE-BEGIN -->\n" + table + "<!-- SEED-TABLE-END -->", s, flags=re.S)
